@@ -274,7 +274,8 @@ def word(rng, bw, nz=False):
 
 
 MOD_KINDS = ("B^n-1", "crandall", "crandall", "B^(n-1)", "B^(n-1)+1", "top-bit-only+1", "odd-top-set", "odd-top-set",
-             "odd-top-clear", "even-top-set", "even-top-clear", "small-top-word", "std", "prime", "composite", "tiny")
+             "odd-top-clear", "even-top-set", "even-top-clear", "small-top-word", "std", "prime", "composite", "tiny",
+             "B^n-B^j+c", "B^n-B^j+c")
 
 
 def modulus(rng, n, bw, odd=False, kinds=None):
@@ -297,6 +298,13 @@ def modulus(rng, n, bw, odd=False, kinds=None):
             m = ps[r % len(ps)]
         else:
             k = "odd-top-set"
+    if k == "B^n-B^j+c":
+        # high words all ones, then zeros: Barrett's quotient estimate is off by 2 for such moduli
+        if n > 1:
+            j = n // 2 if r & 1 else 1 + (r >> 1) % (n - 1)
+            m = top - (1 << (bw * j)) + (1, 1, 3, 1 + (r >> 8) % (1 << (bw * j // 2)))[(r >> 4) % 4]
+        else:
+            k = "crandall"
     if k == "B^n-1":
         m = top - 1
     elif k == "crandall":
@@ -378,8 +386,6 @@ def below(rng, m, n, bw, kind=None, nz=False):
 # ----------------------------------------------------------------------------------------------
 
 SPEC = {
-    # zzPowerMod with exactly the declared stack whatever the modulus (unit_probe)
-    "zzPowerMod@deep": ("v", "o:c:n i:a:n z:n i:b:m z:m i:mod:n s:L.zzPowerMod_deep(n,m)"),
     # ww.h
     "wwCopy": ("v", "o:b:n i:a:n z:n"),
     "wwSwap": ("v", "x:a:n x:b:n z:n"),
@@ -465,11 +471,8 @@ SPEC = {
     "zzRedBarr": ("v", "x:a:2*n i:mod:n z:n i:barr_param:n+2 s:L.zzRedBarr_deep(n)"),
     "zzRedMont": ("v", "x:a:2*n i:mod:n z:n w:mont_param s:L.zzRedMont_deep(n)"),
     "zzRedCrandMont": ("v", "x:a:2*n i:mod:n z:n w:mont_param s:L.zzRedCrandMont_deep(n)"),
-    # powers.  Exactly zzPowerMod_deep(n, m) octets for odd moduli.  For even moduli zmCreate() selects the Barrett
-    # ring, whose zmMulBarr_deep()/zmSqrBarr_deep() (zm.c) omit the 2n words of `prod`, so zmCreate_deep() and with it
-    # zzPowerMod_deep() are 2n words short on the current tree: value cases add those 2n words, the declared size is
-    # exercised by unit_probe in a forked child
-    "zzPowerMod": ("v", "o:c:n i:a:n z:n i:b:m z:m i:mod:n s:L.zzPowerMod_deep(n,m)+(mod%2==0)*2*W*n"),
+    # powers
+    "zzPowerMod": ("v", "o:c:n i:a:n z:n i:b:m z:m i:mod:n s:L.zzPowerMod_deep(n,m)"),
     "zzPowerModW": ("w", "w:a w:b w:mod s:L.zzPowerModW_deep()"),
 }
 
@@ -680,7 +683,6 @@ def _borrow(A, x):
     return x % Bn, (x % Bn - x) // Bn
 
 
-ORACLE["zzPowerMod@deep"] = ORACLE["zzPowerMod"]
 ORACLE["zzSubW"] = lambda A: R(b=_borrow(A, A.a - A.w)[0], ret=_borrow(A, A.a - A.w)[1])
 ORACLE["zzSubW2"] = lambda A: R(a=_borrow(A, A.a - A.w)[0], ret=_borrow(A, A.a - A.w)[1])
 ORACLE["zzSubMulW"] = lambda A: R(b=_borrow(A, A.b - A.a * A.w)[0], ret=_borrow(A, A.b - A.a * A.w)[1])
@@ -780,7 +782,7 @@ class T:
         return ret, outs, changed
 
     def isolated(self, libname, specname, A, alias=(), seconds=20):
-        """the same call in a forked child under alarm(): ('ok', (ret, outs, changed)) or (reason, stderr text) with
+        """(facility, unused while nothing aborts or hangs) the same call in a forked child under alarm(): ('ok', (ret, outs, changed)) or (reason, stderr text) with
         reason = 'hang' | 'assert:<file>' | 'asan:<kind>' | 'died:<status>'.  Used where the library is known to abort
         or never return on admissible input, so that one such case does not cost a worker restart."""
         r, w = os.pipe()
@@ -1742,10 +1744,12 @@ def unit_zz_mod(ctx):
 RED_FNS = ("zzRed", "zzRedCrand", "zzRedBarrStart", "zzRedBarr", "zzRedMont", "zzRedCrandMont")
 
 
-def _red_input(rng, mod, n, bw, limit):
-    """(label, a) with 0 <= a < limit <= B^2n"""
+def _red_input(rng, mod, n, bw, limit, near=False):
+    """(label, a) with 0 <= a < limit <= B^2n; near: prefer products of residues just below the modulus"""
     Rn = 1 << (bw * n)
-    k = rng.randrange(16)
+    k = rng.randrange(19)
+    if near and rng.randrange(2):
+        k = 16
     kk = rng.choice((1, 1, 2, 3, Rn - 1, Rn - 2, Rn // 2, 1 << (bw * rng.randrange(n)), rng.randrange(1, Rn), rng.randrange(1, Rn)))
     if k <= 3:
         la, a = "a=k*mod", kk * mod
@@ -1767,6 +1771,11 @@ def _red_input(rng, mod, n, bw, limit):
         la, a = "special-words", special_words(rng, 2 * n, bw)
     elif k == 12:
         la, a = val(rng, 2 * n, bw)
+    elif k >= 16:
+        # product of two residues just below the modulus: maximal quotient, where the Barrett estimate errs most
+        sb = rng.choice((1, bw // 2, bw, bw + 6, 2 * bw, rng.randrange(1, 2 * bw + 8), rng.randrange(1, bw * n), rng.randrange(1, bw * n),
+                         rng.randrange(1, bw * n), bw * (n // 2) // 2 + rng.randrange(1, bw + 8)))
+        la, a = "a=(mod-s)(mod-t)", (mod - 1 - rng.getrandbits(sb) % mod) * (mod - 1 - rng.getrandbits(sb) % mod)
     else:
         la, a = "random", rng.randrange(limit)
     if a >= limit:
@@ -1790,10 +1799,14 @@ def gen_zz_red(t, f, n, i):
     if f == "zzRedBarrStart":
         return {"mod": mod, "n": n}, "zz_red/" + lm, None
     mont = "Mont" in f
-    la, a = _red_input(rng, mod, n, bw, mod * Rn if mont else Rn * Rn)
+    la, a = _red_input(rng, mod, n, bw, mod * Rn if mont else Rn * Rn, near=lm.startswith("B^n-B^j"))
     A = {"a": a, "mod": mod, "n": n}
     if f == "zzRedBarr":
-        A["barr_param"] = Rn * Rn // mod                                     # = what zzRedBarrStart must produce
+        A["barr_param"] = mu = Rn * Rn // mod                                # = what zzRedBarrStart must produce
+        # input class: how far Barrett's quotient estimate (a div B^(n-1) * mu) div B^(n+1) is below a div mod (0, 1 or 2);
+        # 2 is the rare extreme that needs both final subtractions
+        if a // mod - (((a >> (bw * (n - 1))) * mu) >> (bw * (n + 1))) == 2:
+            la = "barr-estimate-off-by-2"
     if mont:
         A["mont_param"] = (-pow(mod, -1, B)) % B                             # wordNegInv(mod[0])
     t.sub["red-mod:" + lm] += 1
@@ -1832,7 +1845,7 @@ def gen_zz_pow(t, f, n, i):
     lb, b = val(rng, m, bw)
     if i % 9 == 0:
         a, b, la = 0, 0, "0^0"
-    keycls = None
+    keycls = None if mod % 2 else "even-mod"          # even modulus: zmCreate() selects the Barrett ring (zzRedBarr inside)
     cls = "zz_pow/" + (la if la == "0^0" else "b=0" if b == 0 else ("mod-odd-" if mod % 2 else "mod-even-") + lm)
     return {"a": a, "n": n, "b": b, "m": m, "mod": mod}, cls, keycls
 
@@ -1864,6 +1877,12 @@ def regress_cases(bw):
                     "mont-a=k*mod", "a=k*mod", ()))
         out.append(("zzRedCrandMont", {"a": k * cm, "mod": cm, "n": 2, "mont_param": (-pow(cm, -1, B)) % B},
                     "mont-a=k*mod", "a=k*mod", ()))
+    mb = B ** 4 - B ** 2 + 1                                 # regular zzRedBarr: estimate off by 2 and a[n] == 2
+    for x, y in ((mb - (37 * B + 12345), mb - (41 * B + 777)), (mb - (B * B // 5), mb - (B * B // 7)),
+                 (0xfffffffffffffffefff830a1f34e1d64, 0xfffffffffffffffefffffffffe82650a)):
+        if x < mb and y < mb:
+            out.append(("zzRedBarr", {"a": x * y, "mod": mb, "n": 4, "barr_param": B ** 8 // mb}, "barr-estimate-off-by-2",
+                        "barr-estimate-off-by-2", ()))
     out += [
         ("zzAddWMod", {"a": 1, "w": 1, "mod": 2, "n": 1}, "addwmod-a+w=mod", "a+w=mod", ()),
         ("zzAddWMod", {"a": B - 2, "w": B - 1, "mod": 2 * B - 3, "n": 2}, "addwmod-a+w=mod", "a+w=mod", (("b", "a"),)),
@@ -1886,6 +1905,7 @@ def regress_cases(bw):
         ("zzPowerMod", {"a": 3, "n": 1, "b": 5, "m": 1, "mod": 7}, "declared-deep", None, ()),
         ("zzPowerMod", {"a": 3, "n": 4, "b": 5, "m": 1, "mod": B ** 4 - 189}, "declared-deep", None, ()),
         ("zzPowerMod", {"a": 3, "n": 15, "b": 0x267c7f831e5942de % B, "m": 1, "mod": B ** 14 + 1}, "declared-deep", None, ()),
+        ("zzPowerMod", {"a": 3, "n": 15, "b": 0x267c7f831e5942de % B, "m": 1, "mod": B ** 14}, "declared-deep-even-mod", None, ()),
         ("zzPowerModW", {"a": B - 1, "b": 1, "mod": B // 2}, "powermodw-a>=mod", "a>=mod", ()),
         ("wwGetBits", {"a": 5, "n": 1, "pos": bw, "width": 0}, "bits-width=0", "width=0", ()),
         ("wwSetBits", {"a": 5, "n": 1, "pos": bw, "width": 0, "val": 1}, "bits-width=0", "width=0", ()),
@@ -1898,16 +1918,6 @@ def regress_cases(bw):
         ("zzAddW2", {"a": 0, "n": 0, "w": 5}, "borrow-word", "n=0", ()),
     ]
     return out
-
-
-def unit_probe(ctx):
-    """what still needs a forked child on the current tree: zzPowerMod with an even modulus (Barrett ring) and a stack
-    of exactly zzPowerMod_deep(n, m) octets overruns the stack (see SPEC["zzPowerMod"])"""
-    t = T(ctx)
-    B = t.B
-    t.drive("zzPowerMod", {"a": 3, "n": 15, "b": 0x267c7f831e5942de % B, "m": 1, "mod": B ** 14}, "probe/declared-deep-even-mod",
-            (), "declared-deep,even-mod", spec="zzPowerMod@deep", isolate=20)
-    t.finish()
 
 
 def unit_regress(ctx):
@@ -1931,9 +1941,9 @@ REQUIRED_CLASSES = (
     "zz_gcd/fibonacci", "zz_gcd/powers-of-two", "zz_gcd/equal", "zz_gcd/coprime", "zz_gcd/zero", "zz_gcd/jacobi-a=k*b",
     "zz_mod/mod-1", "zz_mod/crandall", "zz_mod/mod-top-word-zero", "zz_mod/gcd!=1", "zz_mod/rand-never-below-mod",
     "zz_red/a=k*mod", "zz_red/a=mod*R-1", "zz_red/0", "zz_pow/0^0", "zz_pow/w-b=1", "zz_mod/a=0", "ww/bits-width=0",
-    "regress/mont-a=k*mod", "regress/addwmod-a+w=mod", "regress/inv-a=0", "regress/inv-gcd!=1", "regress/exgcd-operand-1",
+    "regress/barr-estimate-off-by-2", "zz_red/a=(mod-s)(mod-t)", "zz_red/barr-estimate-off-by-2", "regress/mont-a=k*mod", "regress/addwmod-a+w=mod", "regress/inv-a=0", "regress/inv-gcd!=1", "regress/exgcd-operand-1",
     "regress/exgcd-small-vs-large", "regress/jacobi-n<m", "regress/declared-deep", "regress/powermodw-a>=mod",
-    "regress/bits-width=0", "regress/bits-straddle", "regress/borrow-word", "probe/declared-deep-even-mod",
+    "regress/bits-width=0", "regress/bits-straddle", "regress/borrow-word", "regress/declared-deep-even-mod",
 )
 
 RULE = ("one case = one call of one function (its fast edition too where there is one) on operands drawn from a boundary "
@@ -1947,8 +1957,6 @@ ASSUMPTIONS = [
     "carry / borrow words are judged by the multi-precision identity (c + ret*B^n == a + b, c - ret*B^n == a - b) that the "
     "headers' '\\return carry/borrow word' implies, not by the boolean shorthand of the \\code block (zzSubMulW; n == 0)",
     "moduli are > 1 (the property's quantifier); zzJacobi still sees b = 1",
-    "zzPowerMod value cases with an even modulus add 2n words to zzPowerMod_deep() (Barrett ring deep is short in zm.c); "
-    "the declared size is exercised in a forked child (unit_probe)",
     "word.h macros, zzMulADK (declared, not defined in the library) are not driven",
 ]
 
@@ -1963,7 +1971,6 @@ def jobs(tier, scale=1.0):
     def add(unit, **p):
         J.append({"unit": "c05_zz:" + unit, "params": p})
     step = 1 if scale >= 1 else max(1, int(round(1 / scale)))
-    add("unit_probe")
     add("unit_regress")
     for k in range(4):
         add("unit_zz_gcd", chunk=k, per=N(800, 8000))
